@@ -997,3 +997,37 @@ Lemma sticky_pick_perm bks bks' h :
 Proof.
   intros Hnd Hp. unfold sticky_pick, bk_inventory. rewrite (bk_sorted_perm bks bks' Hnd Hp). split; reflexivity.
 Qed.
+
+Lemma sort_merge_eq s c : NoDup (map fst s) -> NoDup (map fst c) -> sort_by_name (gslb_merge s c) = sort_by_name c.
+Proof.
+  intros Hs Hc. pose proof (gslb_merge_perm s c Hs Hc) as Hp. apply sorted_perm_eq.
+  - apply sort_by_name_sorted. eapply Permutation_NoDup; [apply Permutation_map; apply Permutation_sym; exact Hp | exact Hc].
+  - apply sort_by_name_sorted. exact Hc.
+  - eapply Permutation_trans; [apply Permutation_sym; apply sort_by_name_perm|].
+    eapply Permutation_trans; [exact Hp | apply sort_by_name_perm].
+Qed.
+Lemma sorted_keys_nodup (c : list (str * Z)) : NoDup (map fst c) -> NoDup (map fst (sort_by_name c)).
+Proof. intro H. eapply Permutation_NoDup; [apply Permutation_map; apply sort_by_name_perm | exact H]. Qed.
+Definition loadable (c : list (str * Z)) : Prop := NoDup (map fst c) /\ pos_total c <> 0.
+Lemma gslb_chain_last confs : forall s b,
+  NoDup (map fst s) -> Forall loadable confs -> loadable b ->
+  gslb_chain s (confs ++ [b]) = Some (sort_by_name b).
+Proof.
+  induction confs as [|c r IH]; intros s b Hs Hall [Hb Hpb]; simpl.
+  - rewrite (sort_merge_eq s b Hs Hb). rewrite <- (pos_total_perm _ _ (sort_by_name_perm b)).
+    destruct (pos_total b =? 0) eqn:E; [apply Z.eqb_eq in E; contradiction | reflexivity].
+  - inversion Hall as [|? ? [Hc Hpc] Hall']; subst.
+    rewrite (sort_merge_eq s c Hs Hc). rewrite <- (pos_total_perm _ _ (sort_by_name_perm c)).
+    destruct (pos_total c =? 0) eqn:E; [apply Z.eqb_eq in E; contradiction|].
+    apply IH; [apply sorted_keys_nodup; exact Hc | exact Hall' | split; assumption].
+Qed.
+(* any history of loadable configurations followed by Reload(b) ends in the state of a fresh Init(b) *)
+Lemma gslb_history_independent hist b :
+  hist <> [] -> Forall loadable hist -> loadable b -> gslb_after_history hist b = gslb_fresh b.
+Proof.
+  intros Hne Hall Hb. destruct hist as [|a rest]; [contradiction|]. inversion Hall as [|? ? [Ha Hpa] Hall']; subst.
+  unfold gslb_after_history, gslb_fresh.
+  destruct (pos_total a =? 0) eqn:E; [apply Z.eqb_eq in E; contradiction|].
+  rewrite (gslb_chain_last rest (sort_by_name a) b (sorted_keys_nodup a Ha) Hall' Hb).
+  destruct Hb as [_ Hpb]. destruct (pos_total b =? 0) eqn:E'; [apply Z.eqb_eq in E'; contradiction | reflexivity].
+Qed.
